@@ -22,9 +22,11 @@ MIN_NONTRIVIAL_FRACTION = 0.3
 MAX_S = {"quick": 900, "thorough": 7200}
 
 GRID_OPTS = {
-    "8x3h": dict(freq=["6h", "12h"], per=[("6h", None), ("12h", None), ("6h", "12h"), ("d", None), ("9h", None)]),
-    "8x6h": dict(freq=["12h", "d"], per=[("12h", None), ("d", None), ("12h", "d"), ("2d", None), ("18h", None)]),
-    "12x2h": dict(freq=["4h", "6h", "8h"], per=[("4h", None), ("6h", None), ("4h", "12h"), ("8h", None)]),
+    "8x3h": dict(freq=["6h", "12h"], per=[("6h", None), ("12h", None), ("6h", "12h"), ("d", None), ("9h", None), ("6h", "9h")]),
+    "8x6h": dict(freq=["12h", "d"], per=[("12h", None), ("d", None), ("12h", "d"), ("2d", None), ("18h", None), ("12h", "18h")]),
+    "12x2h": dict(freq=["4h", "6h", "8h"], per=[("4h", None), ("6h", None), ("4h", "12h"), ("8h", None), ("4h", "6h"), ("6h", "10h")]),
+    # daily steps of 24, 24, 25, 24 hours: coarse steps of two calendar days contain minor steps of unequal length
+    "4xd_autumn": dict(freq=["2d"], per=[]),   # (periods of unequal length are refused by EAO: no periodicity here)
 }
 TARGETS = ["contract", "contract2", "take_contract", "storage", "storage_sep", "transport", "ext_transport", "multicommodity"]
 
@@ -48,6 +50,8 @@ def gen(ch):
     elif kind == "freq":
         opt["freq"] = ch.pick("freq", GRID_OPTS[gname]["freq"])
     else:
+        if not GRID_OPTS[gname]["per"]:
+            return None
         p = ch.pick("periodicity", GRID_OPTS[gname]["per"])
         opt["periodicity"] = p[0]
         if p[1]:
